@@ -138,10 +138,12 @@ class Rule:
                         if isinstance(datum, k):
                             try:
                                 datum = v(datum)
-                                break
                             except (TypeError, ValueError):
-                                pass
-                    set_datum(data_copy, datum_path, datum)
+                                continue
+                            # (only cast values are written: writing back an un-cast node
+                            # would alias part of the original data into the copy)
+                            set_datum(data_copy, datum_path, datum)
+                            break
 
         return RuleTest(self, data_copy)
 
